@@ -1781,6 +1781,13 @@ class FnEmitter:
             if name in self.m.aliases:
                 pass
             f = self.m.funcs.get(name)
+            if name == '__cxa_atexit' and (f is None or not f.defined):
+                # registration of a static object's destructor: exit handlers never run in a harness, and taking the
+                # destructor's address would make it a candidate of every type-compatible indirect call in CBMC
+                if asg:
+                    self.emit('%s0;' % asg)
+                self.emit('/* __cxa_atexit registration dropped */')
+                return
             if name in ABORTING and (f is None or not f.defined):
                 argv = [self.val(v, t) for t, v, _ in args]
                 self.emit((ABORTING[name] % tuple(argv) if '%s' in ABORTING[name] else ABORTING[name]) + ';')
@@ -2030,6 +2037,8 @@ def translate(ll_text, roots, cut=(), opts=None, keep_addr_taken=()):
     em.seen = set()
     em.work = []
     cut_re = [re.compile(c) for c in cut]
+    noop_re = [re.compile(c) for c in opts.get('cut_noop', [])]
+    noops = []
     keep_re = [re.compile(c) for c in keep_addr_taken]
 
     def is_cut(n):
@@ -2058,6 +2067,22 @@ def translate(ll_text, roots, cut=(), opts=None, keep_addr_taken=()):
             if name.startswith('llvm.'):
                 continue
             want_body = f.defined and not is_cut(name)
+            if f.defined and any(r.search(name) for r in noop_re):
+                # "cut_noop": the function is replaced by a body that does nothing (stated in the harness spec)
+                rt_ = em.ct(f.ret)
+                em.complete(f.ret)
+                sig_ = em.fn_signature(f, True)
+                if f.ret[0] == 'void':
+                    fn_bodies.append('%s { }' % sig_)
+                elif f.ret[0] in ('struct', 'named', 'arr'):
+                    fn_bodies.append('%s { %s r_; memset(&r_, 0, sizeof r_); return r_; }' % (sig_, rt_))
+                else:
+                    fn_bodies.append('%s { return 0; }' % sig_)
+                encoded.append(name)
+                noops.append(name)
+                defmacros.append('#define DEF_%s 1' % em.cident(name))
+                protos.append((name, f))
+                continue
             if want_body and name in from_global_init and not any(r.search(name) for r in keep_re) and name not in roots:
                 want_body = False
             if want_body:
@@ -2069,6 +2094,9 @@ def translate(ll_text, roots, cut=(), opts=None, keep_addr_taken=()):
             else:
                 bodyless.append(name)
                 defmacros.append('#define DECL_%s 1' % em.cident(name))
+                if f.ret[0] == 'struct':
+                    # literal struct result: the generated lit<N> name is not stable, models use RET_<function>
+                    defmacros.append('#define RET_%s %s' % (em.cident(name), em.ct(f.ret)))
             protos.append((name, f))
         elif name in m.globals:
             g = m.globals[name]
@@ -2143,7 +2171,7 @@ def translate(ll_text, roots, cut=(), opts=None, keep_addr_taken=()):
             ps.append(d)
         pinfo[name] = {'c_name': em.cident(name), 'ret': rd, 'params': ps, 'vararg': f.vararg,
                        'signature': em.fn_signature(f, False, weak=True)}
-    info = {'encoded': sorted(encoded), 'bodyless': sorted(bodyless), 'protos': pinfo,
+    info = {'encoded': sorted(encoded), 'bodyless': sorted(bodyless), 'protos': pinfo, 'noop': sorted(noops),
             'names': {k: v for k, v in em.gname.items()},
             'structs': em.named_c}
     return '\n'.join(h) + '\n', '\n'.join(c) + '\n', info
